@@ -20,7 +20,7 @@ import (
 // index is in range because of the *name*, a correlation no per-path bounds fact carries.
 func c07ArityScenarios(c *core.Check) {
 	p := c.Prog
-	r := c.Rule("R12", "for every function name a ParseFunction caller distinguishes and every number of arguments, each constant-position read of the argument list that is reachable under that scenario is inside the list (reslices args[k:] are followed; conditions on the name and on list lengths are decided by the scenario, all others are free)", 20)
+	r := c.Rule("R12", "for every function name a ParseFunction caller distinguishes and every number of arguments, each constant-position read of the argument list that is reachable under that scenario is inside the list (reslices args[k:] are followed; conditions on the name and on list lengths are decided by the scenario, all others are free)", 36)
 	nFns, nScen := 0, 0
 	for _, fn := range p.ModFuncs {
 		if fn.Pkg == nil || fn.Blocks == nil {
